@@ -1,0 +1,68 @@
+//! Verification hooks for deterministic simulation.
+//!
+//! Compiled only with `--cfg d_engine_verif`; absent from normal builds.
+//! A simulator that runs every node on one thread installs a thread-local
+//! observer; without an observer every function here is a no-op.
+
+use std::cell::RefCell;
+use std::path::Path;
+use std::rc::Rc;
+
+/// Snapshot of the externally relevant Raft state of one node.
+#[derive(Debug, Clone, PartialEq, Eq)]
+pub struct RaftStateView {
+    pub node_id: u32,
+    pub role: i32,
+    pub term: u64,
+    pub commit_index: u64,
+    /// (voted_for_id, voted_for_term, committed)
+    pub voted_for: Option<(u32, u64, bool)>,
+    pub leader: Option<u32>,
+}
+
+#[derive(Debug)]
+pub enum Event<'a> {
+    /// Emitted by the Raft loop after every internal event and every loop iteration.
+    State(RaftStateView),
+    /// A named point inside a multi-step operation (crash point / schedule point).
+    Point {
+        tag: &'static str,
+        path: Option<&'a Path>,
+        a: u64,
+        b: u64,
+    },
+}
+
+type Hook = Rc<dyn Fn(&Event<'_>)>;
+
+thread_local! {
+    static HOOK: RefCell<Option<Hook>> = const { RefCell::new(None) };
+}
+
+/// Install the observer for the current thread.
+pub fn set_hook(hook: Hook) {
+    HOOK.with(|h| *h.borrow_mut() = Some(hook));
+}
+
+/// Remove the observer of the current thread.
+pub fn clear_hook() {
+    HOOK.with(|h| *h.borrow_mut() = None);
+}
+
+/// Deliver `ev` to the current thread's observer, if any. Re-entrant.
+pub fn emit(ev: &Event<'_>) {
+    let hook = HOOK.with(|h| h.borrow().clone());
+    if let Some(hook) = hook {
+        hook(ev);
+    }
+}
+
+/// Convenience wrapper for [`Event::Point`].
+pub fn point(
+    tag: &'static str,
+    path: Option<&Path>,
+    a: u64,
+    b: u64,
+) {
+    emit(&Event::Point { tag, path, a, b });
+}
